@@ -28,6 +28,10 @@ RULE = (
     "add/remove, block/unblock with flags, mode/users update, add/remove directory (nested too; not scanned / scanned "
     "with scan_directory_files / full scan()), rescan, new excluded phrase list, user abort/pause/queue of an upload, "
     "advance (0.1..2.5 s; >=2 s = settle across the 1 s user-management tick and the transfer management cycle). "
+    "Configuration changes are followed by a generated gap of 1..500 ms (bursts: two changes aimed at two different "
+    "existing uploads land close together without a settle) and every executor job (file open/read/close, exists, "
+    "getsize, scans) takes a generated virtual time of 0 / 50 / 150 / 300 ms, so that aborting an UPLOADING transfer "
+    "is slow and further changes arrive while a management cycle is suspended inside its reconciliation. "
     "Oracle = reference entitlement computed from the harness' own model of the configuration: visible(u,f) iff the "
     "innermost shared directory containing f admits u; may_upload(u,f) iff visible and u not blocked for UPLOADS. At "
     "the scripted peers: every PeerSearchReply.results / PeerSharesReply.directories / "
@@ -61,8 +65,12 @@ ASSUMPTIONS = [
     "lists) and only while the upload is permitted (overriding an automatic abort by hand is outside the statement)",
     "files are never deleted or modified on disk during a case; exactness of the index itself is C07's subject "
     "(results naming files outside every shared directory are ignored here)",
-    "every network delivery has strictly positive latency (1 ms); each request is followed by >= 50 ms before the "
-    "next operation",
+    "every network delivery has strictly positive latency (1 ms); each request is followed by >= 50 ms (+ 3 executor "
+    "delays) before the next operation",
+    "with a slow executor the reconciliation horizon grows by 4 executor delays (a cycle that is busy aborting delays "
+    "the next one); an upload that starts or completes between a change and the management cycle that reconciles it "
+    "(e.g. offered by the cycle that was already running when the change arrived) is tolerated and only labelled "
+    "'completed-inside-reconciliation-window'",
 ]
 BUDGET_S = {'quick': 150, 'thorough': 1500}
 
@@ -96,6 +104,11 @@ VARIANTS = ['exact', 'exact', 'exact', 'exact', 'exact', 'upper', 'lower', 'dbls
 CARRIERS = ['file-search', 'server-search', 'distributed-search']
 ADVANCES = [0.1, 0.6, 1.2, 2.5]
 SETTLE = 2.0
+# virtual duration of every executor job (file open/read/close, exists, getsize, scans) after the initial scan: a slow
+# file system makes aborting an UPLOADING transfer take time (the cancelled task closes its file handle), so that a
+# management cycle is suspended inside manage_shares_changed() while further changes arrive
+XDELAYS = [0.0, 0.0, 0.05, 0.15, 0.3]
+GAPS = [1, 5, 20, 50, 100, 150, 200, 300, 500]      # ms between a configuration change and the next operation
 STALE = 'moved-item-keeps-old-directory'
 _TMP_PARENT = '/dev/shm' if os.path.isdir('/dev/shm') and os.access('/dev/shm', os.W_OK) else None
 
@@ -277,6 +290,26 @@ def _op(draw, m, targets):
     return {'t': 'adv', 'dt': draw(st.sampled_from([0, 1, 2, 3, 3, 3, 3]))}
 
 
+@st.composite
+def _burst(draw, m, targets):
+    """Two configuration changes that land close together (no settle in between), each flipping the permission
+    of a different upload that probably exists: the second arrives while the first is being reconciled."""
+    t1 = draw(st.sampled_from(targets))
+    rest = [t for t in targets if t[:2] != t1[:2]] or targets
+    t2 = draw(st.sampled_from(rest))
+    a = draw(_flip_op(m, [t1]))
+    if a is None:
+        return None
+    a['gap'] = draw(st.sampled_from(GAPS))
+    m2 = m.copy()
+    _apply_to_model(m2, a)
+    b = draw(_flip_op(m2, [t2]))
+    if b is None:
+        return None
+    b['gap'] = draw(st.sampled_from(GAPS))
+    return [a, b]
+
+
 def _apply_to_model(m, op):
     """Generation-time bookkeeping (approximate: index effects are ignored)."""
     t = op['t']
@@ -317,7 +350,17 @@ def case_strategy(draw, avoid=False):
         if m.may_upload(op['u'], op['f']):
             targets.append((op['u'], op['f'], op['via']))
     while len(ops) < n:
+        if len(targets) >= 2 and len(ops) + 3 <= 12 and draw(st.integers(0, 9)) < 3:
+            pair = draw(_burst(m, targets))
+            if pair is not None:
+                for op in pair:
+                    _apply_to_model(m, op)
+                    ops.append(op)
+                ops.append({'t': 'adv', 'dt': 3})
+                continue
         op = draw(_op(m, targets))
+        if op['t'] in ('block', 'friend', 'setmode', 'adddir', 'rmdir') and draw(st.integers(0, 2)) == 0:
+            op['gap'] = draw(st.sampled_from(GAPS))
         _apply_to_model(m, op)
         ops.append(op)
         if op['t'] in ('queue', 'treq') and VARIANTS[op['var']] == 'exact' and m.may_upload(op['u'], op['f']) \
@@ -331,6 +374,7 @@ def case_strategy(draw, avoid=False):
         'phrases': draw(st.lists(st.sampled_from(PHRASES), max_size=2)),
         'behav': [draw(st.sampled_from([0, 0, 1, 1, 1, 2, 2, 2, 3])) for _ in USERS],
         'limit': draw(st.sampled_from([0, 1])), 'slots': draw(st.sampled_from([1, 2, 2, 3])),
+        'xdelay': draw(st.integers(0, len(XDELAYS) - 1)),
         'avoid': avoid, 'ops': ops[:12],
     }
 
@@ -392,6 +436,7 @@ def _sanitise(case):
             continue
         t = op.get('t')
         g = lambda k: _int(op.get(k))   # noqa: E731
+        gap = max(1, min(500, g('gap'))) if op.get('gap') is not None else 20
         if t == 'search':
             ops.append({'t': t, 'u': g('u') % 3, 'c': g('c') % 3, 'q': g('q') % len(QUERIES)})
         elif t == 'shares':
@@ -402,17 +447,17 @@ def _sanitise(case):
             ops.append({'t': t, 'u': g('u') % 3, 'f': g('f') % len(FILES), 'via': g('via') % 3,
                         'var': g('var') % len(VARIANTS)})
         elif t == 'friend':
-            ops.append({'t': t, 'u': g('u') % 3, 'add': bool(op.get('add'))})
+            ops.append({'t': t, 'u': g('u') % 3, 'add': bool(op.get('add')), 'gap': gap})
         elif t == 'block':
-            ops.append({'t': t, 'u': g('u') % 3, 'flags': g('flags') % 64, 'rm': bool(op.get('rm'))})
+            ops.append({'t': t, 'u': g('u') % 3, 'flags': g('flags') % 64, 'rm': bool(op.get('rm')), 'gap': gap})
         elif t == 'setmode':
             ops.append({'t': t, 'd': g('d') % 3, 'mode': g('mode') % 3,
-                        'users': None if op.get('users') is None else _users(op.get('users'))})
+                        'users': None if op.get('users') is None else _users(op.get('users')), 'gap': gap})
         elif t == 'adddir':
             ops.append({'t': t, 'd': g('d') % len(CAND), 'mode': g('mode') % 3, 'users': _users(op.get('users')),
-                        'scan': g('scan') % 3})
+                        'scan': g('scan') % 3, 'gap': gap})
         elif t == 'rmdir':
-            ops.append({'t': t, 'd': g('d') % 3, 'scan': 2 if g('scan') % 3 == 2 else 0})
+            ops.append({'t': t, 'd': g('d') % 3, 'scan': 2 if g('scan') % 3 == 2 else 0, 'gap': gap})
         elif t == 'rescan':
             ops.append({'t': t, 'd': g('d') % 4})
         elif t == 'phrases':
@@ -426,6 +471,7 @@ def _sanitise(case):
         'dirs': dirs, 'friends': _users(case.get('friends')), 'blocked': blocked,
         'phrases': _phrases(case.get('phrases')), 'behav': behav, 'limit': _int(case.get('limit')) % 2,
         'slots': 1 + (_int(case.get('slots')) - 1) % 3, 'avoid': bool(case.get('avoid')), 'ops': ops,
+        'xdelay': XDELAYS[_int(case.get('xdelay')) % len(XDELAYS)],
     }
 
 
@@ -502,6 +548,12 @@ def run_case(case) -> CaseResult:
             transfers = client.transfers
             await shares.scan()
             await asyncio.sleep(0.05)
+            xd = c['xdelay']
+            if xd:
+                loop.executor_delay = lambda: xd
+                res.label('slow-executor')
+            wait_req = 0.05 + 3 * xd          # a request is handled after exists() + getsize() on the executor
+            slack = 4 * xd                    # extra reconciliation horizon: slow aborts delay the next cycle
 
             alias = [shares.generate_alias(os.path.normpath(apath(cd))) for cd in CAND]
             if len(set(alias)) != len(alias):
@@ -745,7 +797,11 @@ def run_case(case) -> CaseResult:
                     if st_name in ('COMPLETE', 'FAILED'):
                         t0 = revoked_at.pop(key, None)
                         done = [a.complete_time for a in downs[uname].by_path.get(r, []) if a.complete_time is not None]
-                        if st_name == 'COMPLETE' and t0 is not None and done and max(done) > t0 + 1.6:
+                        if st_name == 'COMPLETE' and t0 is not None and done and max(done) > t0 and \
+                                not model.may_upload(u, f):
+                            # served between the change and the cycle that reconciles it (tolerated)
+                            res.label('completed-inside-reconciliation-window')
+                        if st_name == 'COMPLETE' and t0 is not None and done and max(done) > t0 + 1.6 + slack:
                             violate(K('upload-completed-after-revocation', f),
                                     f'{tag}: upload {key} lost its permission at t={t0 - 1000:.3f} '
                                     f'({model.why_not(u, f)}) while unfinished and was still served: the peer got the '
@@ -810,6 +866,8 @@ def run_case(case) -> CaseResult:
                 res.label('op:' + t)
                 if t == 'adv':
                     dt = ADVANCES[op['dt']]
+                    if dt >= SETTLE:
+                        dt += slack
                     await asyncio.sleep(dt)
                     drain()
                     if dt >= SETTLE:
@@ -839,7 +897,7 @@ def run_case(case) -> CaseResult:
                             link = dlink['l'] = dpeer.connect('D')
                             await asyncio.sleep(0.01)
                         link.send_msg(M.DistributedSearchRequest.Request(0x31, USERS[u], ticket[0], q))
-                    await asyncio.sleep(0.05)
+                    await asyncio.sleep(wait_req)
                     drain()
                     return
                 if t in ('shares', 'dirreq'):
@@ -861,7 +919,7 @@ def run_case(case) -> CaseResult:
                         ctx_dir[u] = model.copy()
                         ticket[0] += 1
                         dn._control().send_msg(M.PeerDirectoryContentsRequest.Request(ticket[0], name))
-                    await asyncio.sleep(0.05)
+                    await asyncio.sleep(wait_req)
                     drain()
                     return
                 if t in ('queue', 'treq'):
@@ -877,7 +935,7 @@ def run_case(case) -> CaseResult:
                     else:
                         ticket[0] += 1
                         downs[uname].request_upload(r, ticket=ticket[0])
-                    await asyncio.sleep(0.05)
+                    await asyncio.sleep(wait_req)
                     drain()
                     after = states()
                     key = (uname, r)
@@ -1043,12 +1101,15 @@ def run_case(case) -> CaseResult:
                     res.label('stale-moved-items')
                 note_flips(before_model)
                 thaw()
-                await asyncio.sleep(0.02)
+                gap = op.get('gap', 20)
+                if gap != 20:
+                    res.label('gap<=50ms' if gap <= 50 else 'gap>50ms')
+                await asyncio.sleep(gap / 1000)
                 drain()
 
             for op in c['ops']:
                 await do_op(op)
-            await asyncio.sleep(SETTLE + 0.5)
+            await asyncio.sleep(SETTLE + 0.5 + slack)
             drain()
             check_reconciled('final settle', _errs(loop))
             await asyncio.sleep(0.5)
